@@ -115,7 +115,11 @@ Definition comps_after_cmd (c : cmd) (l : list (Z * compstate)) : list (Z * comp
 Definition apply_eff (p : panel) (e : effect) : panel :=
   match e with
   | EState ids u => mkPanel (fold_left (fun l id => comp_update id u l) ids (p_comp p)) (p_log p) (p_regs p)
-  | ECmd c => mkPanel (comps_after_cmd c (p_comp p)) (p_log p ++ [c]) (p_regs p)
+  (* the register history also records WHERE the commands fall (kind -1, value = number of commands before):
+     a register query / a reboot between two register writes is between them for the panel too, so the order of
+     register lines relative to command lines is an observable (seed C02-18: register writes of one call
+     collected into the message of the first register line) *)
+  | ECmd c => mkPanel (comps_after_cmd c (p_comp p)) (p_log p ++ [c]) (p_regs p ++ [(-1, [], zlen (p_log p))])
   | EReg k id v => mkPanel (p_comp p) (p_log p) (p_regs p ++ [(k, id, v)])
   end.
 Definition apply_effs (p : panel) (es : list effect) : panel := fold_left apply_eff es p.
